@@ -660,6 +660,7 @@ func TestReplay(t *testing.T) {
 		},
 		"redef": replayRedef,
 		"redefvariadic": replayRedefVariadic,
+		"manylocals":    replayManyLocals,
 		"arity": func(raw json.RawMessage) *ev.Failure {
 			var c ErrCase
 			json.Unmarshal(raw, &c)
